@@ -59,6 +59,8 @@ def expected_dirty(d):
 def observe(obs, ref, refcache):
     """projection of one observed step -> (loaded set, dirty set, pure flag or None, args_unchanged)"""
     cache = obs["cache"]
+    if cache is None:          # cache layout not recognised: no projected state, only the results are judged
+        cache = {}
     loaded = sorted(cache.keys())
     dirty = []
     for f, flds in cache.items():
@@ -97,7 +99,7 @@ def run(tier):
     ref = {k: v["ok"] for k, v in refs[0].items()}
     refcache = {}
     for k, v in ref.items():
-        for f, flds in v["cache"].items():
+        for f, flds in (v["cache"] or {}).items():
             refcache.setdefault(f, {}).update(flds)
     # alias facts extracted from the running code
     al = par.pmap(history.serve, [[("aliases", apis, cfgs)]], procs=1)[0][0]
@@ -182,7 +184,7 @@ def run(tier):
             if ob.get("stale"):
                 bad = (i, f"a result returned earlier (handle {ob['stale']}) was modified by this call although the caller never touched it", "")
                 break
-            if exp and i in exp:
+            if exp and i in exp and ob.get("cache") is not None:
                 e = exp[i]
                 el = sorted(f"{x[0]}:{x[1]}" for x in e["loaded"])
                 ed = expected_dirty(e["dirty"])
